@@ -61,8 +61,11 @@ for task in prod.generate(0, params):
 # all of its global simplifications.  A failing mutator contributes what it delivered before failing.
 spec = []
 count = 0
+_skip = getattr(smtlib, 'has_comment_operand', lambda n: False)
 for node in nodes.bfs(exprs, params.get('max_depth', None)):
     count += 1
+    if _skip(node):
+        continue        # no mutator takes a comment for an operand
     for m in last + [m_ for m_ in enabled_all if type(m_).__name__ not in last_names]:
         try:
             if hasattr(m, 'filter') and not m.filter(node):
@@ -84,6 +87,8 @@ for m in last + [m_ for m_ in enabled_all if type(m_).__name__ not in last_names
     count = 0
     for node in nodes.bfs(exprs, params.get('max_depth', None)):
         count += 1
+        if _skip(node):
+            continue
         try:
             if hasattr(m, 'filter') and not m.filter(node):
                 continue
